@@ -19,3 +19,9 @@ confirm_one() {
   python3 -c "import json,sys;d=json.load(open('.scratch/confirm_$id.json'));print('$id confirm', {k:d.get(k) for k in ['applies','suite_passes','demo_with_patch_fails','demo_without_patch_passes','confirmed']})"
 }
 i=0
+for id in "${ids[@]}"; do
+  confirm_one $id $((i % 6)) &
+  i=$((i+1))
+  if [ $((i % 6)) -eq 0 ]; then wait; fi
+done
+wait
